@@ -72,6 +72,7 @@ FIRST = {
     'e20-C20': 'missed -> R4 promotes-the-recorded-dtypes; the extended rule then reported the same construct in the NumPy backend of the pinned tree: genuine defect 18, fixed in aeac884',
     'e09-C09': 'caught',
     'e05-C05': 'missed -> new rule L6 (no call-spanning scratch state: function-local statics are once-initialised values, locks or locked caches)',
+    'e13-C13': 'caught',
     'c03-C03': 'missed by C03 (D2 reported it under C02 / C13) -> D2 now also decides C03',
     'c02-C02': 'missed by C02 (T3 reported it under C17 / C18) -> T1, T3, T3b now also decide C02',
     'c01-C01': 'missed by C01 (the same change as b10, written independently; DC1 reported it under C19) -> DC1 and DC4 now also decide C01',
